@@ -1,19 +1,6 @@
 """Registry of the property checks that are claimed (source of MANIFEST.json, see tools/mkmanifest.py)."""
 
 CHECKS = {
-    "C01": dict(
-        category="model_checking",
-        text=("TLC exhaustively checks an implementation-shaped TLA+ model of MultipartDecoder (every generator body x every "
-              "arrival schedule within the bounds) for chunking independence; the model is bound to the code both ways: "
-              "TLC-generated bodies are replayed on the real decoder under all 2-way/3-way/byte-wise splits, and recorded "
-              "executions of the real decoder and MultiPartParser (corpus x schedules x buffer sizes x short reads) are "
-              "judged step by step by the TLC trace spec, which also reports model drift."),
-        note=("Trusted: TLC, the JSON trace encoding, the recorder in harness/mp.py. Reference = the real code's own one-piece "
-              "decode (the property is independence). Exhaustive only within the model bounds (boundary b/bnd, 5-6 symbol "
-              "alphabet, payload <= 4, <= 3 chunks); beyond that sampled."),
-        technique="TLA+ model checking (TLC) + trace validation of the real decoder against the spec",
-        design_ref="6/C01",
-    ),
     "C10": dict(
         category="model_checking",
         text=("TLC exhaustively checks the decoder model with max_form_memory_size / max_parts constants for BufBound, "
@@ -60,13 +47,6 @@ CHECKS = {
         note="Trusted: TLC, the recorder in harness/accept.py, the charset alias table (self-checked against the codec registry). Exhaustive only within the model bounds; beyond them sampled. Domain: unquoted token headers, q <= 3 decimals. LanguageAccept judged against the documented fallbacks read strictly (an exact q=0 match is never overridden).",
         technique="TLA+ model checking (TLC) of a negotiation contract vs. an implementation-shaped model + TLC trace validation of the real Accept classes",
         design_ref="6/C17",
-    ),
-    "C19": dict(
-        category="model_checking",
-        text="TLC exhaustively checks an implementation-shaped TLA+ model of DechunkedInput.readinto against a strict chunked-grammar contract (every generated framing, truncation and header defect x every read-size sequence within the bounds), the response-writer decision table (protocol x HEAD x status x Content-Length x chunk lists) and the request-target functions; TLC-generated wires, writer cases and targets are replayed on the real DechunkedInput and on a real WSGIRequestHandler over a socket pair, and seeded random requests/applications are recorded and judged line by line by the TLC trace spec, which recomputes every expectation from the raw bytes and reports model drift.",
-        note="Trusted: TLC, the JSON encoding, the recorder in harness/devserver.py, the stub server object. Exhaustive only within model bounds (<=2-3 chunks, payload alphabet a/0/CR/LF, read sizes <=4 + drain); beyond that sampled. Lenient size texts, chunk extensions, trailers, non-UTF-8 percent sequences are unclaimed; a leading '//' may arrive collapsed (http.server); live socket server/TLS/keep-alive not exercised.",
-        technique="TLA+ model checking (TLC) + spec->code replay + trace validation of the real handler against the spec",
-        design_ref="6/C19",
     ),
     "C11": dict(
         category="model_checking",
@@ -158,6 +138,20 @@ CHECKS = {
         note="Trusted: TLC, trace encoding, generators in harness/iri.py, urllib.parse.urlsplit and Python's idna codec (host forms recorded as facts). Exhaustive only within model bounds; Unicode sampled (seeded). Tab/CR/LF, port 0, NFKC-delimiter userinfo outside the domain; URLs of escape-carrying EnvironBuilder paths not judged.",
         technique="TLA+ model checking (TLC) of codec and dispatcher models + table replay + trace validation of real conversions/environ round trips",
         design_ref="6/C15",
+    ),
+    "C19": dict(
+        category="model_checking",
+        text="TLC exhaustively checks an implementation-shaped TLA+ model of DechunkedInput.readinto against a strict chunked-grammar contract (every generated framing, truncation and header defect x every read-size sequence within the bounds), the response-writer decision table (protocol x HEAD x status x Content-Length x chunk lists) and the request-target functions; TLC-generated wires, writer cases and targets are replayed on the real DechunkedInput and on a real WSGIRequestHandler over a socket pair, and seeded random requests/applications are recorded and judged line by line by the TLC trace spec, which recomputes every expectation from the raw bytes and reports model drift.; a temporal TLA+ model of the WSGI call protocol in run_wsgi (start_response / exc_info / write / yield / raise / close; safety, action and liveness properties, final wire in the PEP 3333 contract) is checked for every application behaviour of <=5 actions, and every exported behaviour is replayed on the real handler and its wire bytes judged (clauses Proto...)",
+        note="Trusted: TLC, the JSON encoding, the recorder in harness/devserver.py, the stub server object. Exhaustive only within model bounds (<=2-3 chunks, payload alphabet a/0/CR/LF, read sizes <=4 + drain); beyond that sampled. Lenient size texts, chunk extensions, trailers, non-UTF-8 percent sequences are unclaimed; a leading '//' may arrive collapsed (http.server); live socket server/TLS/keep-alive not exercised. Header commit point (first chunk vs first non-empty chunk) accepted either way; close() count of the app iterable, LintMiddleware agreement and pipelined/keep-alive requests are reported as drift only (not named by the property).",
+        technique="TLA+ model checking (TLC) + spec->code replay + trace validation of the real handler against the spec",
+        design_ref="6/C19",
+    ),
+    "C01": dict(
+        category="model_checking",
+        text="TLC exhaustively checks an implementation-shaped TLA+ model of MultipartDecoder (every generator body x every arrival schedule within the bounds) for chunking independence; the model is bound to the code both ways: TLC-generated bodies are replayed on the real decoder under all 2-way/3-way/byte-wise splits, and recorded executions of the real decoder and MultiPartParser (corpus x schedules x buffer sizes x short reads) are judged step by step by the TLC trace spec, which also reports model drift. The repository's own multipart/form/request tests are run under a recording pytest plugin and every MultipartDecoder session they create is judged step by step by the same trace spec.",
+        note="Trusted: TLC, the JSON trace encoding, the recorder in harness/mp.py. Reference = the real code's own one-piece decode (the property is independence). Exhaustive only within the model bounds (boundary b/bnd, 5-6 symbol alphabet, payload <= 4, <= 3 chunks); beyond that sampled.",
+        technique="TLA+ model checking (TLC) + trace validation of the real decoder against the spec",
+        design_ref="6/C01",
     ),
     # --- END CHECKS (new entries go above this line) ---
 }
